@@ -20,6 +20,9 @@ pub open spec fn go_predeclared(s: Seq<char>) -> bool {
     || s == "uint"@ || s == "uintptr"@ || s == "iota"@ || s == "nil"@ || s == "append"@ || s == "cap"@ || s == "clear"@ || s == "close"@
     || s == "complex"@ || s == "copy"@ || s == "delete"@ || s == "imag"@ || s == "len"@ || s == "make"@ || s == "max"@ || s == "min"@
     || s == "new"@ || s == "panic"@ || s == "print"@ || s == "println"@ || s == "real"@ || s == "recover"@ || s == "fmt"@
+    // not predeclared but just as unusable for a user function: Go's `init` (no arguments, no results, cannot be called) and `main0`, the name the
+    // entry function is emitted under
+    || s == "init"@ || s == "main0"@
 }
 // a name the emitted Go must not define at package level
 pub open spec fn go_reserved(s: Seq<char>) -> bool { go_keyword(s) || go_predeclared(s) }
@@ -74,7 +77,7 @@ pub proof fn lemma_underscore_not_reserved(s: Seq<char>)
     reveal_strlit("nil"); reveal_strlit("append"); reveal_strlit("cap"); reveal_strlit("clear"); reveal_strlit("close"); reveal_strlit("complex");
     reveal_strlit("copy"); reveal_strlit("delete"); reveal_strlit("imag"); reveal_strlit("len"); reveal_strlit("make"); reveal_strlit("max");
     reveal_strlit("min"); reveal_strlit("new"); reveal_strlit("panic"); reveal_strlit("print"); reveal_strlit("println"); reveal_strlit("real");
-    reveal_strlit("recover"); reveal_strlit("fmt");
+    reveal_strlit("recover"); reveal_strlit("fmt"); reveal_strlit("init"); reveal_strlit("main0");
 }
 // bytes vs characters: what is_valid_go_ident's byte tests say about the text
 pub proof fn lemma_bytes_legal(s: Seq<char>, bytes: Seq<u8>, q: bool)
